@@ -78,7 +78,11 @@ func genU64(r *Rng) uint64 {
 func genMsg(r *Rng) *GMsg {
 	m := &GMsg{Type: int64(r.Intn(6))}
 	if r.Intn(3) == 0 {
-		s := hex.EncodeToString(r.Bytes(r.Intn(12)))
+		n := r.Intn(12)
+		if r.Intn(12) == 0 {
+			n = 1000 + r.Intn(3000) // messages longer than any small scratch buffer an encoder may keep around
+		}
+		s := hex.EncodeToString(r.Bytes(n))
 		m.Data = &s
 	}
 	if r.Intn(2) == 0 {
@@ -87,6 +91,9 @@ func genMsg(r *Rng) *GMsg {
 	}
 	if r.Intn(2) == 0 {
 		n := r.Intn(6)
+		if r.Intn(15) == 0 {
+			n = 200 + r.Intn(300)
+		}
 		for i := 0; i < n; i++ {
 			m.BlockSizes = append(m.BlockSizes, genU64(r))
 		}
@@ -417,6 +424,14 @@ func runCodecCase(in CodecInput) (obs CodecObs, fails []Failure) {
 			obs.Msg = msgOfNode(nd)
 			obs.Reenc = data.EncodeUnixFSData(nd)
 			obs.Perm = nd.Permissions()
+			// the bytes handed out belong to the caller: encoding something else afterwards must not change them
+			snap := append([]byte(nil), obs.Reenc...)
+			_ = data.EncodeUnixFSData(otherMessage())
+			_ = data.EncodeUnixFSData(otherMessage())
+			if !bytes.Equal(snap, obs.Reenc) {
+				fail("C09", "encode-aliased", "the bytes returned by EncodeUnixFSData changed when another message was encoded afterwards", len(snap), "changed")
+				obs.Reenc = snap
+			}
 		} else if obs.Outcome.Class != "panic" {
 			obs.Outcome = Outcome{Class: "decode"}
 		}
@@ -735,4 +750,16 @@ func scnCodec(rep *Report, rng *Rng, tier string, outdir string) {
 		emit(CodecInput{Kind: kinds[rng.Intn(len(kinds))], Class: "malformed", Wire: hex.EncodeToString(w)})
 	}
 	cf.Flush()
+}
+
+var otherMsg data.UnixFSData
+
+// otherMessage: a small fixed message, different from everything generated
+func otherMessage() data.UnixFSData {
+	if otherMsg == nil {
+		n, err := data.DecodeUnixFSData([]byte{8, 2, 18, 5, 'o', 't', 'h', 'e', 'r', 24, 5})
+		must(err)
+		otherMsg = n
+	}
+	return otherMsg
 }
